@@ -268,6 +268,9 @@ def check(rep, args):
     for cfg in configs:
         prog = facts.program(cfg)
         rep.guard(scan_rules, rep, prog, 3 if thorough else 2, 4 if thorough else 3)
+        # a trapezoid ONE row tall (the sliver below / above a triangle's middle vertex): the edges may meet before the next row, so a
+        # quantity extrapolated one row down (a span width, say) can have either sign there - a guard on it forks and is judged by witness
+        rep.guard(scan_rules, rep, prog, 1, 3)
         perms = list(itertools.permutations((0, 1, 2)))
         scen = [(p, s) for p in perms for s in (True, False)] if thorough else [((0, 1, 2), True), ((2, 0, 1), False), ((1, 2, 0), True)]
         rep.guard(tri_fill_rules, rep, prog, scen)
